@@ -17,14 +17,15 @@ RULE = ("Hypothesis-generated schedule programs: 2-8 threads, each a list of {cr
         "speciation+equilibrium phases+dump, kinetics Runge-Kutta and CVODE, 3-cell advective transport with exchange, 3-cell multicomponent-"
         "diffusion transport, inverse model, BASIC-heavy USER_PUNCH/USER_PRINT, error-producing input, REACTION with digit/fractional/exponent formulas, and an "
         "error-free 'sticky' input that leaves errno == ERANGE behind on the calling thread (8 variants: EXP/LOG10/power/literal range "
-        "errors); 16 parameter values each; workloads "
+        "errors), BASIC programs that divide by a run-time zero on fixed line numbers (run-time warnings), BASIC DIM numeric/string arrays "
+        "of 8-5000 elements read before written (then filled with garbage); 16 parameter values each; workloads "
         "use disjoint reactant numbers so any sequence on one instance stays cheap), read all channels (selected-output tables bitwise, output/"
         "log/dump/error/warning strings, line counts, components, default-named files), destroy} on its own instances, with 1-3 barrier points "
         "that start operations of different threads simultaneously (run-vs-destroy, run-vs-create, create-vs-destroy, load-vs-run, all-create, "
         "all-run, mixed); in every schedule at least one thread owns two instances A, B whose call sequences interleave (B.load|run, "
-        "A.run [sticky in 3 of 4], B.run); in 1 of 4 schedules an extra thread replays another thread's program without barriers (twin histories). Each "
+        "A.run [sticky in 2 of 4], B.run [the same program as A in 1 of 4]); in 1 of 4 schedules an extra thread replays another thread's program without barriers (twin histories). Each "
         "schedule is executed by the ThreadSanitizer build (1 sequential + 3 concurrent processes) and by the release build (1 sequential, "
-        "2x reverse-order sequential, one solo process per thread, one solo process per INSTANCE (its own call sequence alone), 3 concurrent processes x 10 iterations). Excluded by construction and "
+        "2x reverse-order sequential, one solo process per thread, one solo process per INSTANCE (its own call sequence alone, MALLOC_PERTURB_=165; the reverse runs use 90), 3 concurrent processes x 10 iterations). Excluded by construction and "
         "counted (known finding): TRANSPORT runs in more than one thread of a schedule (one thread per schedule may run them). Non-trivial = a ThreadSanitizer-instrumented concurrent execution of the schedule had >=2 threads inside library calls at "
         "the same time AND >=1 create/destroy overlapping a run (relaxed atomic counters in the harness); distinct by SHA-256 of the case")
 ASSUMPTIONS = ["ThreadSanitizer (clang 14, -O1) reports every happens-before violation on the paths a schedule executes, and only those; paths "
@@ -165,9 +166,14 @@ def _interleave(draw, t):
         _set(draw, t, b)
         _load(draw, t, a)
         _set(draw, t, a)
-    _run(draw, t, a, sticky=draw(st.integers(0, 3)) > 0)
+    kind = draw(st.sampled_from(["sticky", "sticky", "same", "free"]))
+    _run(draw, t, a, sticky=(kind == "sticky"))
     _read(t, a)
-    _run(draw, t, b)
+    if kind == "same" and t.ops[-2]["wl"] in wl.WORKLOADS and t.live[b] in wl.WORKLOADS[t.ops[-2]["wl"]]:
+        # identical programs in two instances of one process (throttled / "reported once" process-wide state would show)
+        t.ops.append(dict(t.ops[-2], s=b))
+    else:
+        _run(draw, t, b)
     _read(t, b)
     if len(t.live) > 2 and draw(st.booleans()):
         _destroy(t, a)
@@ -455,8 +461,9 @@ def _has_report(path):
         return False
 
 
-def execute(ctx, variant, sched, sd, tag, args, full=False):
-    """one harness process in its own working directory"""
+def execute(ctx, variant, sched, sd, tag, args, full=False, perturb=None):
+    """one harness process in its own working directory; perturb: value of glibc's MALLOC_PERTURB_ (every allocated block is
+    filled with ~value, every freed block with value) - results must not depend on the state of the allocator"""
     blocked = 0
     while True:
         wd = os.path.join(sd, tag)
@@ -464,6 +471,9 @@ def execute(ctx, variant, sched, sd, tag, args, full=False):
         os.makedirs(wd)
         out = os.path.join(wd, "result.txt")
         env = dict(os.environ)
+        env.pop("MALLOC_PERTURB_", None)
+        if perturb is not None:
+            env["MALLOC_PERTURB_"] = str(perturb)
         if variant == "tsan":
             opts = TSAN_OPTS
             if os.path.exists(SUPP):
@@ -764,9 +774,9 @@ def _check(case, ctx):
         check_ids(rseq, "rel sequential")
         refr = rseq.recs[0]
         ntw = check_twins(case, rseq, "rel sequential")
-        rrev = execute(ctx, "rel", sched, sd, "rrev", ["--mode", "seq", "--reverse", "--iters", "2"])
+        rrev = execute(ctx, "rel", sched, sd, "rrev", ["--mode", "seq", "--reverse", "--iters", "2"], perturb=90)
         check_crash(rrev, "mt_rel reverse")
-        compare(refr, rrev, "rel sequential in reverse thread order (2 repetitions in one process) vs sequential")
+        compare(refr, rrev, "rel sequential in reverse thread order (2 repetitions in one process, MALLOC_PERTURB_=90) vs sequential")
         check_ids(rrev, "rel reverse")
         for t in range(n):
             rs = execute(ctx, "rel", sched, sd, "rsolo", ["--mode", "seq", "--only", str(t)])
@@ -775,10 +785,10 @@ def _check(case, ctx):
         # every instance's own call sequence alone in a fresh process ("a function of that sequence alone")
         insts = instances(case)
         for ti, ci, idx in insts:
-            ri = execute(ctx, "rel", sched, sd, "rinst", ["--mode", "seq", "--inst", str(ti), str(ci)])
+            ri = execute(ctx, "rel", sched, sd, "rinst", ["--mode", "seq", "--inst", str(ti), str(ci)], perturb=165)
             check_crash(ri, "mt_rel single instance")
-            compare(refr, ri, "rel instance created by thread %d operation %d alone in a fresh process vs sequential execution of "
-                    "the whole schedule" % (ti, ci), keys={(ti, oi) for oi in idx})
+            compare(refr, ri, "rel instance created by thread %d operation %d alone in a fresh process (MALLOC_PERTURB_=165) vs sequential "
+                    "execution of the whole schedule" % (ti, ci), keys={(ti, oi) for oi in idx})
         rmax = 0
         nconc, iters = [int(x) for x in case.get("replay_rel", [3, 20])] if replay else (REL_CONC, REL_ITERS)
         for k in range(nconc):
